@@ -5,7 +5,7 @@
     match_tag(t, s) <=> t in s, string form '@A & @B' == object form.
 (2) Placement: a function whose two parameters, three annotated assignments, one annotated
     re-binding of a parameter and return annotation are chosen by a symbolic vector among
-    {none, "@A", "@B & @A", tag.B, tag.A & tag.B & tag.C, int}; the source is generated from
+    {none, "@A", "@B & @C & @A", tag.B, tag.A & tag.B, int}; the source is generated from
     the vector and probed with $x:@T, *:@T, v:@T, $x and a function-position tag; the raw
     stream (capture.name, value) must be exactly the bindings annotated with T, and (spy on
     Interactor.interact) only the selected bindings are instrumented.
@@ -33,8 +33,8 @@ META = {
 }
 
 CHOICES = [
-    ("", frozenset()), ('"@A"', frozenset("A")), ('"@B & @A"', frozenset("AB")), ("tag.B", frozenset("B")),
-    ("tag.A & tag.B & tag.C", frozenset("ABC")), ("int", frozenset()),
+    ("", frozenset()), ('"@A"', frozenset("A")), ('"@B & @C & @A"', frozenset("ABC")), ("tag.B", frozenset("B")),
+    ("tag.A & tag.B", frozenset("AB")), ("int", frozenset()),
 ]
 
 
